@@ -1,6 +1,7 @@
 package main
 
 import (
+	"strings"
 	"go/ast"
 	"go/token"
 	"go/types"
@@ -131,8 +132,25 @@ func runC27(c *Ctx) {
 		if as, ok := nd.(*ast.AssignStmt); ok && as.Tok == token.DEFINE && len(as.Lhs) == 1 && len(as.Rhs) == 1 {
 			if lit, ok := as.Rhs[0].(*ast.FuncLit); ok {
 				id := as.Lhs[0].(*ast.Ident)
-				lits[id.Name] = lit
-				litObj[id.Name] = info.Defs[id]
+				// closures are identified by what they do: the one that sends the batch, the one that receives from in
+				roleName := ""
+				switch {
+				case containsNode(lit.Body, func(n ast.Node) bool {
+					call, ok := n.(*ast.CallExpr)
+					if !ok {
+						return false
+					}
+					cal := callee(info, call)
+					return cal != nil && strings.HasPrefix(cal.Name(), "Send") && cal.Pkg() != nil && relPkg(cal.Pkg().Path()) == "internal/net"
+				}):
+					roleName = "flush"
+				case containsNode(lit.Body, func(n ast.Node) bool { return isRecvFrom(info, n, inF) }):
+					roleName = "drainReady"
+				}
+				if roleName != "" {
+					lits[roleName] = lit
+					litObj[roleName] = info.Defs[id]
+				}
 			}
 		}
 		return true
